@@ -301,6 +301,44 @@ def r14_api_arguments_untouched(ctx):
     ctx.ok("C13.R14", ("leaspy.models.base", "BaseModel"), None, f"{n_fun} public methods of BaseModel: no store through an argument that is still the caller's object", construct="public API arguments only read")
 
 
+def r15_user_objects_in_the_settings_only_read(ctx, rid="C13.R15", why="the object the caller put into the settings is modified: the same settings re-used for another call describe another design"):
+    """The simulation reads objects the caller put into the settings (the table of visits ...) through `self.param_study[...]` /
+    `settings.parameters[...]`: they are the caller's own objects (the settings are deep-copied for the algorithm parameters, not for these) and
+    are only read - no `inplace=True` operation, item store or mutator call on them or on a local bound to them."""
+    ctx.rule(rid, "objects reached from the settings / param_study of the simulation are never modified in place", 1)
+    MUT = {"update", "pop", "popitem", "clear", "setdefault", "append", "extend", "insert", "remove", "sort", "reverse", "drop_duplicates", "sort_values", "sort_index", "reset_index", "set_index",
+           "dropna", "fillna", "rename", "drop"}
+
+    def from_settings(e, aliases):
+        while isinstance(e, (ast.Subscript, ast.Attribute)) and not (isinstance(e, ast.Subscript) and U(e.value) in ("self.param_study", "settings.parameters", "self.algo_parameters", "visit_parameters", "dict_param")):
+            e = e.value
+        if isinstance(e, ast.Subscript):
+            return True
+        return isinstance(e, ast.Name) and e.id in aliases
+    n = 0
+    for f in ctx.ix.iter_funcs():
+        if not f.mod.startswith("leaspy.algo.simulate"):
+            continue
+        n += 1
+        aliases = set()
+        for _ in range(2):
+            for st in statements(f.node):
+                if isinstance(st, ast.Assign) and len(st.targets) == 1 and isinstance(st.targets[0], ast.Name) and isinstance(st.value, (ast.Subscript, ast.Name)) and from_settings(st.value, aliases) \
+                        and "df" in U(st.value):
+                    aliases.add(st.targets[0].id)
+        for st in statements(f.node):
+            for c in header_walk(st):
+                if isinstance(c, ast.Call) and isinstance(c.func, ast.Attribute) and from_settings(c.func.value, aliases) and isinstance(c.func.value, (ast.Name, ast.Subscript)) \
+                        and (isinstance(c.func.value, ast.Name) or "df" in U(c.func.value)):
+                    inplace = any(k.arg == "inplace" and U(k.value) == "True" for k in c.keywords)
+                    if inplace or (c.func.attr in MUT and c.func.attr in ("update", "pop", "popitem", "clear", "setdefault", "append", "extend", "insert", "remove", "sort", "reverse")):
+                        ctx.violation(rid, f, c, f"`{U(c)[:70]}` modifies in place an object taken from the settings: " + why, construct=f"in-place on a settings object in {f.name}")
+            for t in store_targets(st):
+                if isinstance(t, ast.Subscript) and isinstance(t.value, ast.Name) and t.value.id in aliases:
+                    ctx.violation(rid, f, st, f"`{U(st)[:70]}` stores into an object taken from the settings: " + why, construct=f"in-place on a settings object in {f.name}")
+    ctx.ok(rid, ("leaspy.algo.simulate.simulate", "SimulationAlgorithm"), None, f"{n} functions of the simulation package: user objects of the settings only read", construct="settings objects only read")
+
+
 INPUT_TYPES = {"AlgorithmSettings": "settings", "Dataset": "dataset", "Data": "data", "OutputsSettings": "output settings", "DataFrame": "table"}
 
 
@@ -482,6 +520,7 @@ def rules(ctx):
     r3b_after_cleaning(ctx, sw)
     r4_inputs(ctx, cg)
     r14_api_arguments_untouched(ctx)
+    r15_user_objects_in_the_settings_only_read(ctx)
     r5_shared_defaults(ctx)
     r6_no_inplace_on_model_values(ctx)
     r7_argument_views(ctx)
